@@ -90,7 +90,8 @@ theorem getSrc_typed (path : Path) (k : String) (as : List (String × Val)) (hw 
             rw [hk, hslot] at h3
             have hs : sig t = .str := by simpa [slotOK] using h3
             have := hstable t hs
-            exact .tok _ (by simp [Res.ok, Abs.ofSyms, this]) (by simp [Res.ok, Abs.ofSyms, this])
+            exact .tok _ (by rw [this]; exact (SymSet.mem_ofList _ _).mpr (by simp))
+              (by rw [this]; exact (SymSet.mem_ofList _ _).mpr (by simp))
           | none => simp at h1
           | bool b => simp at h1
           | int i => simp at h1
